@@ -3,6 +3,7 @@ CONSTANTS
   Vals = {1, 2}
   MaxLen = 2
   MaxOps = 1000
+  Universe = "adv"
   BType = "rlp"
   BRawId = ""
   Proj <- NoProj
